@@ -159,6 +159,39 @@ func DecodeError(codec string, data []byte) (err error) {
 	return err
 }
 
+// DecodedBeforeError reads data with the decoding library of the codec and returns how many bytes
+// the library delivers before it reports an error or the end of the stream (-1 when the stream
+// cannot even be opened).
+func DecodedBeforeError(codec string, data []byte) (n int) {
+	defer func() {
+		if r := recover(); r != nil {
+			n = -1
+		}
+	}()
+	var r io.Reader
+	var err error
+	switch codec {
+	case "gzip":
+		r, err = kgzip.NewReader(bytes.NewReader(data))
+	case "bzip2":
+		r, err = bzip2.NewReader(bytes.NewReader(data), &bzip2.ReaderConfig{})
+	case "xz", "xz-multiblock":
+		r, err = xz.NewReader(bytes.NewReader(data))
+	case "zstd":
+		var d *zstd.Decoder
+		d, err = zstd.NewReader(bytes.NewReader(data))
+		if err == nil {
+			defer d.Close()
+		}
+		r = d
+	}
+	if err != nil || r == nil {
+		return -1
+	}
+	m, _ := io.Copy(io.Discard, r)
+	return int(m)
+}
+
 // CompressFlushed compresses the parts one after the other with a flush of the compressor after
 // each of them (gzip: sync flush; zstd: end of block), and returns the offsets of the compressed
 // stream at which every byte of parts[0..i] can be decoded: a stream cut at such an offset decodes
